@@ -79,32 +79,7 @@ theorem nextBar_total (s : FastStochastic F) (b : Bar F) (h : WF s) :
   obtain ⟨⟨mx', hi⟩, e2, w2, p2⟩ := Maximum.next_total s.maximum b.high h.max
   exact ⟨_, nextBar_wiring s b mn' lo mx' hi e1 e2, ⟨w1, w2, p1.trans h.pmin, p2.trans h.pmax⟩, rfl⟩
 
-/-- `reset` = component resets (minimum first).  -/
-theorem reset_wiring (s : FastStochastic F) (mn' : Minimum F) (mx' : Maximum F)
-    (h1 : s.minimum.reset = some mn') (h2 : s.maximum.reset = some mx') :
-    s.reset = some { s with minimum := mn', maximum := mx' } := by
-  unfold reset
-  simp [h1, h2]
-
-/-- `reset` rebuilds exactly the state `new` builds -/
-theorem reset_eq (s : FastStochastic F) (h : WF s) : s.reset = some (fresh s.period) := by
-  rw [reset_wiring s _ _ (Minimum.reset_eq _ h.min) (Maximum.reset_eq _ h.max), h.pmin, h.pmax]
-  rfl
-
-theorem reset_wf (s : FastStochastic F) (h : WF s) :
-    ∃ r, s.reset = some r ∧ WF r ∧ r.period = s.period :=
-  ⟨_, reset_eq s h, fresh_wf _ h.pos (h.pmin ▸ h.min.small), rfl⟩
-
 omit [Scalar F] in
 theorem period_fn_eq (s : FastStochastic F) : s.period_fn = s.period := rfl
-
-omit [Scalar F] in
-theorem display_eq (fmt : F → String) (s : FastStochastic F) :
-    display fmt s = "FAST_STOCH(" ++ toString s.period ++ ")" := rfl
-
-theorem default_eq : (default_ : Option (FastStochastic F)) = some (fresh 14) := by
-  unfold default_
-  rw [new_eq]
-  simp [unwrap, isizeMax]
 
 end TaRs.Gen.FastStochastic
